@@ -163,18 +163,21 @@ def run(ctx):
     # real threads, no gate: the only place where the reader's raw copy really overlaps a store
     ms = 600 if thorough else 200
     stress = []
-    for n in SIZES:
-        rc, out = vlib.sh([exe, "stress", str(n), str(ms), "2"], timeout=120)
+    # plus runs in which the writer acquires and drops the producer handle around every update
+    # (sizes 129 / 4096 / 65536: long copies that several complete updates fit into)
+    for n, churn in [(n, "") for n in SIZES] + [(129, "churn"), (4096, "churn"), (65536, "churn")]:
+        rc, out = vlib.sh([exe, "stress", str(n), str(ms), "2"] + ([churn] if churn else []), timeout=120)
         m = re.search(r"STRESS size=(\d+) readers=(\d+) stores=(\d+) loads=(\d+) loads_overlapping_a_store=(\d+) torn=(\d+) stale_or_future=(\d+) went_back=(\d+)", out)
         if rc != 0 or not m:
             ctx.violation("stress run failed for size %d" % n, {"rc": rc, "out": out[-800:]}, no_input=True)
             continue
         d = dict(zip(["size", "readers", "stores", "loads", "loads_overlapping_a_store", "torn", "stale_or_future", "went_back"], map(int, m.groups())))
+        d["handle_per_update"] = bool(churn)
         stress.append(d)
         for fld, key in (("torn", "seqlock:torn-load"), ("stale_or_future", "seqlock:stale-load"), ("went_back", "seqlock:load-went-back")):
             if d[fld]:
-                ctx.violation("real-thread run: %d loads %s (size %d)" % (d[fld], fld, n), {"stress": d, "how_to_rerun": "%s stress %d %d 2" % (exe, n, ms)}, key=key)
-    ctx.cov["real_thread_runs"] = {"rule": "ungated: 1 writer (store / loan alternating) || 2 readers for %d ms per size; every loaded value self-checked "
+                ctx.violation("real-thread run: %d loads %s (size %d)" % (d[fld], fld, n), {"stress": d, "how_to_rerun": "%s stress %d %d 2 %s" % (exe, n, ms, churn)}, key=key)
+    ctx.cov["real_thread_runs"] = {"rule": "ungated: 1 writer (store / loan alternating; also with the producer handle acquired and dropped around every update, sizes up to 64 KiB) || 2 readers for %d ms per size; every loaded value self-checked "
                                            "(well formed, was current at some instant of the load, per reader never older)" % ms, "runs": stress}
 
     ctx.log("real-thread runs done")
